@@ -25,9 +25,11 @@ def demo_failed(out):
 def main():
     outdir, x = sys.argv[1], sys.argv[2]
     base = os.path.basename(outdir.rstrip("/"))
-    rnd = "R2-" if base.startswith("out2-") else ("R3-" if base.startswith("out3-") else "")
-    prop = base.replace("out3-", "").replace("out2-", "").replace("out-", "")
-    agent_wt = sys.argv[3] if len(sys.argv) > 3 else {"R2-": "/tmp/wt2-", "R3-": "/tmp/wt3-", "": "/tmp/wt-"}[rnd] + prop
+    import re as _re
+    m = _re.match(r"out(\d*)-(C\d+)$", base)
+    n, prop = m.group(1), m.group(2)
+    rnd = ("R%s-" % n) if n else ""
+    agent_wt = sys.argv[3] if len(sys.argv) > 3 else "/tmp/wt%s-%s" % (n, prop)
     src = os.path.join(outdir, x)
     meta = json.load(open(os.path.join(src, "meta.json")))
     vw = "/tmp/vw-%s%s-%s" % (rnd, prop, x)
@@ -37,10 +39,15 @@ def main():
     report = {"repo_head": sh("git -C /repo rev-parse --short HEAD")[1].strip()}
     try:
         cmd = meta["demo_cmd"].replace(agent_wt, vw)
+        # the delivery directory may have been staged elsewhere
+        orig_out = "/tmp/out%s-%s" % (n, prop)
+        if os.path.abspath(outdir) != orig_out:
+            cmd = cmd.replace(orig_out + "/", os.path.abspath(outdir) + "/")
         # 1. demo on the clean tree
         rc, o = sh(cmd, cwd=vw)
         report["demo_without"] = "fails" if demo_failed(o) else "passes"
         report["demo_without_tail"] = o[-600:]
+        sh("git clean -fdq", cwd=vw)  # a demo command may leave its test file behind
         # 2. apply
         rc, o = sh("git apply --whitespace=nowarn %s" % os.path.join(src, "patch.diff"), cwd=vw)
         report["applies"] = rc == 0
